@@ -178,7 +178,36 @@ class Check:
         self.violations.append((key, what, path))
 
     # ---- solve + replay
+    def _auto_reach(self):
+        """vacuity guard for every distinct assumption set of the universal obligations that has no explicit reachability twin:
+        a *soft* twin (only a definite 'unsat' counts as vacuous; 'unknown' within its short budget is tolerated and reported)"""
+        have = set()
+        for o in self.obls:
+            if o.kind == 'reach':
+                have.add(frozenset(a.id for a in o.assume))
+        seen = set()
+        for o in list(self.obls):
+            if o.kind != 'forall' or o.verdict is not None or not o.assume:
+                continue
+            key = frozenset(a.id for a in o.assume)
+            if key in seen or key in have:
+                continue
+            seen.add(key)
+            if any(key <= h for h in have):      # a twin with a superset of these assumptions is already satisfiable-checked
+                continue
+            tw = solve.Obligation('auto-reach: ' + o.name, o.assume, ir.TRUE, 'reach', None, None)
+            if tw.ground:
+                continue
+            tw.meta['soft'] = False
+            tw.meta['soft_reach'] = True
+            tw.meta['replay'] = None
+            tw.meta['fallback_payloads'] = None
+            tw.meta['timeout_s'] = 20
+            self.obls.append(tw)
+
     def solve(self, timeout_s=60, nproc=None):
+        if os.environ.get('VERIF_NO_AUTO_REACH') != '1':
+            self._auto_reach()
         todo = [o for o in self.obls if o.verdict is None]
         if not todo:
             return
@@ -261,7 +290,8 @@ class Check:
         refuted = [o for o in claims if o.refuted]
         inconcl = [o for o in claims if not o.holds and not o.refuted and not o.meta.get('soft')]
         soft_unknown = [o for o in claims if not o.holds and not o.refuted and o.meta.get('soft')]
-        vacuous = [o for o in reach if o.verdict != 'sat']
+        vacuous = [o for o in reach if (o.verdict == 'unsat' if o.meta.get('soft_reach') else o.verdict != 'sat')]
+        reach_unknown = [o for o in reach if o.meta.get('soft_reach') and o.verdict not in ('sat', 'unsat')]
         solver_s = sum(o.seconds for o in obls)
         distinct = len({o.name for o in claims if not o.ground})
         # sample obligations: first few non-ground, with query excerpt
@@ -323,6 +353,7 @@ class Check:
             'refuted': len(refuted),
             'ground_obligations': ground,
             'reachability_twins': len(reach),
+            'auto_reachability_twins_unknown': len(reach_unknown),
             'probe_queries': len(probes),
             'soft_obligations_unknown': [o.name for o in soft_unknown],
             'evaluations': n + self.feasibility_queries,
